@@ -388,6 +388,13 @@ pub fn run(tier: Tier) -> i32 {
         ("config-in-waiting-group", "<svg><g><rect xy=\"#z|h\" wh=\"5\"/><config border=\"0\"/></g><rect id=\"z\" wh=\"10\"/></svg>", Some("0 0 15 10")),
         ("config-in-waiting-if", "<svg><if test=\"1\"><rect xy=\"#z|h\" wh=\"5\"/><config border=\"2\"/></if><rect id=\"z\" wh=\"10\"/></svg>", Some("-2 -2 19 14")),
         ("config-in-group-control", "<svg><g><rect wh=\"5\"/><config border=\"0\"/></g><rect id=\"z\" xy=\"5 0\" wh=\"10\"/></svg>", Some("0 0 15 10")),
+        // fifth review round
+        ("root-transform-does-not-move-the-extent", "<svg transform=\"translate(100)\"><rect wh=\"10\"/></svg>", Some("-5 -5 20 20")),
+        ("root-scale-does-not-grow-the-extent", "<svg transform=\"scale(2)\"><rect wh=\"10\"/></svg>", Some("-5 -5 20 20")),
+        ("nested-svg-offset-without-size", "<svg><svg x=\"50\" y=\"50\"><rect wh=\"10\"/></svg></svg>", Some("45 45 20 20")),
+        ("nested-svg-offset-with-width-only", "<svg><g><svg x=\"50\" y=\"20\" width=\"30\"><rect wh=\"10\"/></svg></g></svg>", Some("45 15 20 20")),
+        ("config-in-waiting-group-then-later-config", "<svg><g><rect xy=\"#z|h 5\" wh=\"10\"/><config border=\"1\"/></g><config border=\"3\"/><rect id=\"z\" wh=\"10\"/></svg>", Some("-3 -3 31 16")),
+        ("config-in-group-then-later-config-control", "<svg><rect id=\"z\" wh=\"10\"/><g><rect xy=\"#z|h 5\" wh=\"10\"/><config border=\"1\"/></g><config border=\"3\"/></svg>", Some("-3 -3 31 16")),
         ("empty-root-with-size", "<svg width=\"100\" height=\"50\"/>", None),
         ("empty-root-with-size-end-tag", "<svg width=\"100\" height=\"50\"></svg>", None),
         ("empty-root-plain", "<svg/>", None),
